@@ -433,6 +433,102 @@ func lsStartSelfTest() error {
 	return nil
 }
 
+// untracked shared state: an owner type with a map field the table was not told about
+const lsSelfShared = `package p
+
+import "sync"
+
+type Hub struct {
+	mu    sync.Mutex
+	n     int
+	names []string
+	cache map[string]int
+}
+
+type helper struct{ m map[string]int }
+
+func (h helper) get(k string) int {
+	v, ok := h.m[k]
+	if !ok {
+		v = len(k)
+		h.m[k] = v
+	}
+	return v
+}
+
+func NewHub() *Hub {
+	h := &Hub{names: []string{"a"}, cache: map[string]int{}}
+	h.cache["a"] = 1
+	go h.loop()
+	return h
+}
+
+func (h *Hub) loop() {
+	h.mu.Lock()
+	h.n += len(h.names)
+	h.mu.Unlock()
+	h.work("x")
+}
+
+func (h *Hub) work(k string) int {
+	return helper{m: make(map[string]int)}.get(k)
+}
+
+func (h *Hub) Lookup(k string) int {
+	for _, n := range h.names {
+		_ = n
+	}
+	return h.work(k)
+}
+`
+
+func lsSharedSelfTest() error {
+	run := func(src string) (*lsOut, error) {
+		return lsAnalyze("m", []lsTarget{{"", "Hub", []string{"n"}}}, map[string]map[string]string{"": {"p.go": src}})
+	}
+	has := func(o *lsOut, field string) bool {
+		for _, x := range o.shared {
+			if x.typ == "p.Hub" && x.field == field {
+				return true
+			}
+		}
+		return false
+	}
+	base, err := run(lsSelfShared)
+	if err != nil {
+		return err
+	}
+	if len(base.shared) != 0 {
+		return fmt.Errorf("shared base: reported although names is only read and cache only touched by the constructor: %+v", base.shared)
+	}
+	muts := []struct{ name, old, new, field string }{
+		{"the private map of every call becomes the owner's map", "helper{m: make(map[string]int)}", "helper{m: h.cache}", "cache"},
+		{"the owner's map is written by a goroutine and an exported method", "func (h *Hub) work(k string) int {\n", "func (h *Hub) work(k string) int {\n\th.cache[k]++\n", "cache"},
+		{"the slice is appended to", "func (h *Hub) work(k string) int {\n", "func (h *Hub) work(k string) int {\n\th.names = append(h.names, k)\n", "names"},
+	}
+	for _, m := range muts {
+		if strings.Count(lsSelfShared, m.old) != 1 {
+			return fmt.Errorf("shared mutant %q: anchor not unique", m.name)
+		}
+		o, err := run(strings.Replace(lsSelfShared, m.old, m.new, 1))
+		if err != nil {
+			return fmt.Errorf("shared mutant %q: %v", m.name, err)
+		}
+		if !has(o, m.field) {
+			return fmt.Errorf("shared mutant %q: Hub.%s not reported: %+v", m.name, m.field, o.shared)
+		}
+	}
+	// used by one entry point only (the goroutine): not shared
+	o, err := run(strings.Replace(strings.Replace(lsSelfShared, "helper{m: make(map[string]int)}", "helper{m: h.cache}", 1), "\treturn h.work(k)\n", "\treturn len(k)\n", 1))
+	if err != nil {
+		return err
+	}
+	if has(o, "cache") {
+		return fmt.Errorf("shared: a map only the goroutine uses was reported: %+v", o.shared)
+	}
+	return nil
+}
+
 type lsMutant struct {
 	name     string
 	old, new string
@@ -494,6 +590,9 @@ func lsSelfTest() error {
 		return err
 	}
 	if err := lsStartSelfTest(); err != nil {
+		return err
+	}
+	if err := lsSharedSelfTest(); err != nil {
 		return err
 	}
 	base, err := lsRunSnippet(lsSelfBase)
